@@ -26,7 +26,7 @@ ASSUMPTIONS = ['only index and value forms used by upstream tests/docstrings are
                'values keep the dtype of the array (no float written into an integer array)']
 REACH_EXPECTED = ['construct_from_2d_block', 'row_assign_wider_dtype', 'introw_general_slice', 'op_rowslice_col', 'out_of_row_write_rejected', 'op_elem', 'op_row_same', 'op_row_newlen', 'op_introw_slice', 'op_slice2d', 'op_fancy', 'op_fancy_int', 'op_mask',
                   'op_mask_empty', 'op_rowblock', 'op_append_rows', 'op_append_ra', 'op_aug_scalar', 'op_aug_ragged', 'op_binary',
-                  'env_source_mutated', 'env_lengths_mutated', 'env_result_mutated', 'env_write_through', 'rect_to_ragged', 'ragged_to_rect', 'multidim_elements',
+                  'env_source_mutated', 'env_lengths_mutated', 'env_result_mutated', 'env_write_through', 'env_selection_mutated', 'rect_to_ragged', 'ragged_to_rect', 'multidim_elements',
                   'out_of_row_rejected']
 
 
@@ -223,7 +223,7 @@ class Machine:
         lens = [len(r) for r in rows]
         was_rect = len(set(lens)) == 1
         ops1d = ('elem', 'row_same', 'row_newlen', 'introw_slice', 'slice2d', 'rowslice_col', 'fancy', 'fancy_int', 'mask', 'rowblock', 'append',
-                 'aug', 'binary', 'write_through', 'elem', 'row_same')
+                 'aug', 'binary', 'write_through', 'elem', 'row_same', 'child_write')
         opsnd = ('row_same', 'row_newlen', 'append', 'aug', 'binary', 'rowblock')
         op = t.choice(ops1d if self.edim is None else opsnd)
         a = self.a
@@ -460,6 +460,36 @@ class Machine:
                 i = t.draw(n)
                 res[i][0] = V.take(()) if self.edim is None else V.take((self.edim,))
                 self.ctx.hit('env_result_mutated')
+        elif op == 'child_write':
+            # a row selection is an array of its own: the caller writes into it, then into the parent; neither sees the other's write
+            kind = t.draw(4)
+            if kind == 0:
+                lo = t.draw(n)
+                sel = slice(lo, t.irange(lo + 1, n))
+            elif kind == 1:
+                sel = slice(None, None, 2)
+            elif kind == 2:
+                sel = slice(None)
+            else:
+                sel = sorted({t.draw(n) for _ in range(t.irange(1, 3))})
+            idx = list(range(n))[sel] if isinstance(sel, slice) else sel
+            child = self.sut(a.__getitem__, sel)
+            cm = [rows[i].copy() for i in idx]
+            self.hist.append(('child_write', str(sel)))
+            v = V.take(())
+            if t.flag():
+                self.sut(child.__setitem__, (0, 0), v)
+            else:
+                child[0][0] = v
+            cm[0][0] = v
+            self.cmp_rows(child, cm, 'selection %s after a write into it' % (sel,))
+            i = idx[t.draw(len(idx))]
+            j = t.draw(lens[i])
+            w = V.take(())
+            self.sut(a.__setitem__, (i, j), w)
+            rows[i][j] = w
+            self.cmp_rows(child, cm, 'selection %s after a write into the array it was taken from' % (sel,))
+            self.ctx.hit('env_selection_mutated')
         elif op == 'write_through':
             i = t.draw(n)
             j = t.draw(lens[i])
@@ -471,7 +501,7 @@ class Machine:
             self.ctx.hit('env_write_through')
         if op not in ('binary',):
             self.mutations += 1
-        if op not in ('append', 'aug', 'binary', 'write_through'):
+        if op not in ('append', 'aug', 'binary', 'write_through', 'child_write'):
             self.ctx.hit('op_' + op)
         nl = [len(r) for r in self.rows]
         now_rect = len(set(nl)) == 1
